@@ -5,6 +5,7 @@ import (
 	"time"
 
 	"github.com/mattn/go-runewidth"
+	"github.com/vbauerster/mpb/v8/internal"
 )
 
 const (
@@ -145,6 +146,7 @@ func (wc WC) Format(str string) (string, int) {
 		width++
 	}
 	if (wc.C & DSyncWidth) != 0 {
+		internal.Gate("fmt:send", wc.wsync, width)
 		wc.wsync <- width
 		width = <-wc.wsync
 	}
